@@ -11,8 +11,8 @@ Inductive envelope :=
 | Unsigned (payload : bytes)
 | Signed (channel_hash signature payload : bytes).
 
-(* from_bytes outcome: EnvEmpty = IndexError on data[0]; EnvVersion = DecodeError('Could not determine
-   message format version.') *)
+(* from_bytes outcome: EnvEmpty = DecodeError('Empty payload.') (an IndexError on data[0] before ee15672);
+   EnvVersion = DecodeError('Could not determine message format version.') *)
 Inductive env_result :=
 | EnvOk (e : envelope)
 | EnvEmpty
@@ -47,7 +47,7 @@ Definition env_payload (e : envelope) : bytes :=
 
 (* Claim.from_bytes: which decoder ends up handling the data, decided by the first byte alone:
    0/1 -> current format (a protobuf failure is re-raised), '{' -> old JSON schema, anything else -> v1
-   protobuf.  FmtEmpty = IndexError. *)
+   protobuf.  FmtEmpty = DecodeError('Empty payload.'). *)
 Inductive claim_fmt := FmtV2 | FmtJson | FmtV1 | FmtEmpty.
 
 Definition claim_format (d : bytes) : claim_fmt :=
